@@ -45,7 +45,7 @@ PosGeneric ==
      << <<4, 0, 0>>, <<0, 0, 0>>, <<0, 4, 3>>, <<2, 3, 6>> >> >>
 \* exact scope: particle 1 at the origin, three more sites of {0,1,2}^3
 PtsExact == IF Tier = "quick"
-            THEN {<<1, 0, 0>>, <<0, 1, 2>>, <<2, 2, 1>>, <<1, 1, 0>>, <<0, 0, 2>>, <<2, 1, 2>>, <<1, 2, 1>>}
+            THEN {<<1, 0, 0>>, <<0, 1, 2>>, <<2, 2, 1>>, <<1, 1, 0>>, <<0, 0, 2>>, <<2, 1, 2>>}
             ELSE {<<1, 0, 0>>, <<0, 1, 2>>, <<2, 2, 1>>, <<1, 1, 0>>, <<0, 0, 2>>, <<2, 1, 2>>, <<1, 2, 1>>,
                   <<0, 2, 0>>, <<2, 0, 1>>, <<1, 1, 1>>, <<2, 2, 2>>}
 PKey(p) == 9 * p[1] + 3 * p[2] + p[3]
@@ -125,14 +125,15 @@ CfgSpace ==
   THEN [ps : PosExactSets, ci : 1..Len(CellsExact), mi : 1..NMasks, ti : 1..NTopo, wi : 1..3,
         nf : (IF Gen THEN 1..2 ELSE {1}), ni : 1..2, tsi : {1}]
   ELSE [pi : 1..Len(PosGeneric), ci : 1..Len(CellsGeneric), mi : 1..NMasks, ti : 1..NTopo, wi : 1..3,
-        nf : 1..3, ni : 1..2, tsi : 1..2]
+        nf : (IF Gen THEN 1..3 ELSE {1, 3}), ni : 1..2, tsi : (IF Gen THEN 1..2 ELSE {1})]
 HashA ==
   IF Mode # "cfg" THEN a.k
   ELSE (IF Scope = "exact" THEN SumSeq(SortedSeq(a.ps)) ELSE 5 * a.pi)
        + 31 * a.ci + 17 * a.mi + 7 * a.ti + 3 * a.wi + 11 * a.nf + 13 * a.ni + 29 * a.tsi
 \* sentinels are always emitted: the first cell/mask/topology with every weight kind
+SentinelPs == CHOOSE S \in PosExactSets : \A T \in PosExactSets : SumSeq(SortedSeq(S)) <= SumSeq(SortedSeq(T))
 Sentinel == Mode # "cfg" \/ (a.ci = 1 /\ a.mi = 1 /\ a.ti = 1 /\ a.nf = 1 /\ a.ni = 1 /\ a.tsi = 1
-                              /\ (IF Scope = "exact" THEN a.ps = CHOOSE S \in PosExactSets : \A T \in PosExactSets : SumSeq(SortedSeq(S)) <= SumSeq(SortedSeq(T)) ELSE a.pi = 1))
+                              /\ (IF Scope = "exact" THEN a.ps = SentinelPs ELSE a.pi = 1))
 Selected == ~Gen \/ Stride = 1 \/ Sentinel \/ (HashA * 7919 + l * 104729 + Seed * 611953) % Stride = 0
 
 Init ==
@@ -141,9 +142,9 @@ Init ==
             ELSE IF Mode = "xtal" THEN [k : 1..Len(XtalNames)]
             ELSE CfgSpace)
   /\ Mode = "cfg" => (a.ni = 2 => a.ti \in {1, 4})          \* truncation only matters for long lists
-  /\ (Mode = "cfg" /\ Scope = "exact" /\ a.wi = 3) => \A f \in 1..a.nf : ExactRowSumsSmooth(Frames[f], NmaxC)
   /\ Selected
   /\ (HashA + l) % NSHARDS = SHARD
+  /\ (Mode = "cfg" /\ Scope = "exact" /\ a.wi = 3) => \A f \in 1..a.nf : ExactRowSumsSmooth(Frames[f], NmaxC)
 Next == UNCHANGED vars
 Spec == Init /\ [][Next]_vars
 
